@@ -109,6 +109,8 @@ class C02(Prop):
                     item["opts"] = {"w": rng.choice([0, 2, 3, gen.len_width(rng)]), "vw": rng.choice([0, 2, 3, gen.len_width(rng)])}
                 if rng.random() < 0.25:
                     item["rewrite"] = {"widths": gen.widths(rng, sess["version"] == "v3")}
+                if sess["version"] == "v3" and rng.random() < 0.15:
+                    item.setdefault("rewrite", {})["max-size"] = rng.choice([484, 1472, 65507, 65536, 2**31 - 2, 2**31 - 1])
                 scripts["%d:1" % opid] = {"replies": [item]}
         if family == "walk" and rng.random() < 0.3:
             for k in range(1, 12):
